@@ -114,6 +114,8 @@ type Pair struct {
 	Reveal   []string
 	LeftPkg  string
 	RightPkg string
+	// Sequential: the right side starts in the left side's exit state (composition l ; r)
+	Sequential bool
 }
 
 type GlobalInv struct {
@@ -419,7 +421,7 @@ func (cs *Contracts) loadContractFile(path, pkgPath string) {
 				errf(ln.n, "duplicate def %s", name)
 			}
 			cs.Defs[name] = &Def{Pkg: pkgPath, Name: name, Params: ps, Body: e, Src: body, Bool: isBool, Rec: word == "defrec"}
-		case "pred":
+		case "pred", "macro":
 			eq := strings.Index(rest, "=")
 			if eq < 0 {
 				errf(ln.n, "bad pred")
@@ -457,6 +459,10 @@ func (cs *Contracts) loadContractFile(path, pkgPath string) {
 			curPair = &Pair{Pkg: pkgPath, Name: rest, File: path, Line: ln.n}
 			cs.Pairs = append(cs.Pairs, curPair)
 			curF, curL, curLemma, curGlobal = nil, nil, nil, ""
+		case "sequential":
+			if curPair != nil {
+				curPair.Sequential = true
+			}
 		case "left":
 			if curPair != nil {
 				curPair.Left = rest
